@@ -94,6 +94,7 @@ type pProject struct {
 	Indent      string        `json:"indent,omitempty"`
 	Repeat      int           `json:"repeat,omitempty"` // C19: how many times the analysis is repeated on ONE pipeline
 	Determinism int           `json:"determinism,omitempty"` // C13: number of brand-new sessions whose bytes are compared
+	Echo        bool          `json:"echo,omitempty"`        // rig: controller methods record their arguments (package rigrec)
 }
 
 // ---- rendering
@@ -245,7 +246,24 @@ func writeProject(p pProject, dir string) (map[string]string, error) {
 			default:
 				res = " (" + strings.Join(m.Results, ", ") + ")"
 			}
-			mb.WriteString(fmt.Sprintf("%sfunc (c *%s) %s(%s)%s {\n\t%s\n}\n", ind, c.Name, m.Name, strings.Join(ps, ", "), res, zeroReturn(m.Results)))
+			pre := ""
+			if p.Echo {
+				args := []string{}
+				for _, q := range m.Params {
+					if q.Type == "context.Context" {
+						args = append(args, `"ctx"`)
+					} else {
+						args = append(args, q.Name)
+					}
+				}
+				pre = fmt.Sprintf("rigrec.Call(%q%s)\n\t", c.Name+"."+m.Name, func() string {
+					if len(args) == 0 {
+						return ""
+					}
+					return ", " + strings.Join(args, ", ")
+				}())
+			}
+			mb.WriteString(fmt.Sprintf("%sfunc (c *%s) %s(%s)%s {\n\t%s%s\n}\n", ind, c.Name, m.Name, strings.Join(ps, ", "), res, pre, zeroReturn(m.Results)))
 			mf.decls = append(mf.decls, mb.String())
 		}
 	}
@@ -258,6 +276,9 @@ func writeProject(p pProject, dir string) (map[string]string, error) {
 		}
 		if strings.Contains(body, "context.") {
 			imports = append(imports, `"context"`)
+		}
+		if strings.Contains(body, "rigrec.") {
+			imports = append(imports, `"`+projModule+`/rigrec"`)
 		}
 		if regexp.MustCompile(`(^|[^A-Za-z_])time\.`).MatchString(body) {
 			imports = append(imports, `"time"`)
